@@ -43,6 +43,19 @@ Theorem C14_frame_equiv {T} {O : Ops T} {RL : RingLaws T} (n u : @vec T) (dirs :
 Proof. intros H. exact (conj (nearest_frame_equiv n u dirs w H) (rotT_rot n u w H)). Qed.
 Print Assumptions C14_frame_equiv.
 
+(** (3') the wall frame is complete: every geometric direction [v] IS the rotation of its wall-frame
+    coordinates, so the lookup of ANY direction among the rotated samples (what the code does) is
+    the lookup of its wall-frame coordinates among the reference samples *)
+Theorem C14_frame_complete {T} {O : Ops T} {RL : RingLaws T} (n u : @vec T) (dirs : list (@vec T)) (v : @vec T) :
+  orthonormal n u ->
+  rot n u (rotT n u v) = v /\
+  nearest (map (rot n u) dirs) v = nearest dirs (rotT n u v).
+Proof.
+  intros H. split; [exact (rot_rotT n u v H)|].
+  rewrite <- (rot_rotT n u v H) at 1. exact (nearest_frame_equiv n u dirs (rotT n u v) H).
+Qed.
+Print Assumptions C14_frame_complete.
+
 (** (4) where the executable model uses the lookup: source deposit, patch pair (outgoing slot
     of the sender, incoming sample of the RECEIVING patch), receiver *)
 Theorem C14_uses {T} {O : Ops T} (sc : @scene T) (s : @source T) (r : @receiver T) i j :
